@@ -2,6 +2,7 @@
 //! on the real chain service (ckb-chain + ckb-shared + ckb-store).
 mod c01;
 mod c02;
+mod c08;
 mod c19;
 mod c20;
 mod hist;
@@ -24,6 +25,9 @@ pub struct Summary {
 
 fn main() {
     let prop = std::env::args().nth(1).expect("usage: hx-chain <Cxx>");
+    if prop == "C08-child" {
+        c08::child(std::path::Path::new(&std::env::args().nth(2).expect("dir")));
+    }
     let seed = seed();
     let thorough = tier_is_thorough();
     let out = out_dir(&prop);
@@ -44,6 +48,11 @@ fn main() {
             let r = c02::run(seed, thorough, &out, &scratch);
             Summary { viol: r.viol, evaluations: r.evaluations, distinct: r.distinct.len(), stats: r.stats, samples: r.samples,
                 rule: "histories on a real on-disk node: extensions with fee-paying transactions (proposed, then committed inside the window; in-block chains, conflicting spends, re-commits of the same transaction on a competing branch, uncles), competing branches that take over (longer, or shorter but heavier after the first epoch), truncations, restarts; after every change of the main chain COLUMN_CELL / TRANSACTION_INFO / INDEX / UNCLES are dumped by iteration from the store and from the published snapshot and compared with a replay of the main chain (property predicate) and with the Coq model's reorg. distinct = distinct histories, each >= 5 steps" }
+        }
+        "C08" => {
+            let r = c08::run(seed, thorough, &out, &scratch);
+            Summary { viol: r.viol, evaluations: r.evaluations, distinct: r.distinct.len(), stats: r.stats, samples: r.samples,
+                rule: "histories with transactions and competing branches are imported by a child process over an on-disk DB (sequentially, or all blocks delivered asynchronously); a reference run logs every write to the database (transaction commits, write batches: before and after each); for every such point (all of them up to 45 quick / 400 thorough per history, otherwise first/last third plus a sample) the child is aborted there, the parent re-opens the DB, waits for the start-up recovery (InitLoadUnverified), checks the C02 replay consistency of the stored columns and that stored-but-unverified blocks were picked up, redelivers all blocks and compares tip, total difficulty and columns with the run that never crashed. distinct = distinct (history, crash point)" }
         }
         "C19" => {
             let r = c19::run(seed, thorough, &out, &scratch);
